@@ -113,7 +113,10 @@ inline unsigned multArg(int64_t x, bool extreme = false) {
     static const unsigned v[16] = {0, 1, 2, 3, 7, 1, 2, 1, 0, 1, 2, 3, 7, 255, 65536, 16777216};
     // "extreme" runs: EdgeMultiplicity is a 32-bit unsigned, every value of it is a legal argument
     static const unsigned e[16] = {0, 1, 2, 2147483648u, 3000000000u, 4294967295u, 2147483647u, 65536, 0, 1, 4294967295u, 2147483648u, 3, 7, 4000000000u, 2147483649u};
-    return (extreme ? e : v)[((x % 16) + 16) % 16];
+    // NOT `(extreme ? e : v)[i]`: g++ 12 with -fsanitize=undefined miscompiles a subscripted conditional array
+    // expression (it yields 0 for every index; clang and uninstrumented g++ are fine) - found by the C17 digest oracle
+    const unsigned *table = extreme ? e : v;
+    return table[((x % 16) + 16) % 16];
 }
 // weight alphabets (C05). exact: {-8..8} x 1/4 ; rounded: arbitrary finite doubles in +-1e6
 inline double weightArg(int64_t x, bool exact, bool nonneg) {
